@@ -306,6 +306,22 @@ def run(ctx):
                "queued for some sessions) keeps the loop from reading what the other flows send for as long as it lasts")
     ctx.ob("K10", "workspace", "select-scan", "-", True, f"{n_sel} select! loops scanned for `biased;`", nontrivial=False, ordinal=False)
 
+    # ---------------- K11 no per-thread (or process-wide) scratch buffer in per-flow code -----------------------------
+    # a `thread_local!` buffer is shared by every flow the runtime happens to poll on that worker thread. What one flow leaves in it - on an error
+    # path that returns before the buffer is handed out or cleared - is delivered to whichever flow decodes next on that thread. Per-flow data
+    # lives in per-flow objects; a thread-local that holds bytes and is touched by codec / relay code is refused.
+    n_tls = 0
+    for b in bodies:
+        for (blk, c, t) in b.calls():
+            if "LocalKey" in ((c.self_s or "") + " " + c.name) and (c.method or "").startswith(("with", "take", "replace", "set")):
+                n_tls += 1
+                holds = any(w in (c.self_s or "") + " " + " ".join(a.get("s", "") for a in c.args) for w in ("BytesMut", "Vec<u8>", "Bytes", "[u8;", "String"))
+                ctx.ob("K11", b.defp, "no-thread-local-byte-buffer-in-flow-code", loc(t["sp"]), not holds,
+                       "thread-local value holds no flow data" if not holds else
+                       f"`{c.name}` works on a thread-local byte buffer from per-flow code: whatever a flow leaves in it when it returns early (an authentication error after some "
+                       "chunks were already opened) is handed to the next flow that is polled on the same worker thread - one flow's plaintext delivered inside another's stream")
+    ctx.ob("K11", "workspace", "tls-scan", "-", True, f"{n_tls} thread-local accesses in production code", nontrivial=False, ordinal=False)
+
     # ---------------- K5 unsafe impl Send/Sync ---------------------------------------------------------
     n_imp = 0
     for it in prog.items:
